@@ -27,7 +27,8 @@ type SyncCase struct {
 	FilterUID bool         `json:"filteruid,omitempty"` // source owned by 4242:4242, receiver Filter maps ownership to 0:0
 	// FilterShift: source owned by 7:8, receiver Filter ADDS 1000 to both ids (a filter that is not idempotent)
 	FilterShift bool `json:"filtershift,omitempty"`
-	MemEOF      bool `json:"memeof,omitempty"` // in-memory source whose readers return the last bytes together with io.EOF
+	MemEOF      bool `json:"memeof,omitempty"`   // in-memory source whose readers return the last bytes together with io.EOF
+	MemShort    int  `json:"memshort,omitempty"` // in-memory source whose readers deliver at most this many bytes per call
 	// MemResize: in-memory source whose files changed size between listing and reading: readers deliver
 	// len+MemResize bytes (negative: the tail is missing; -1<<30: nothing at all)
 	MemResize int `json:"memresize,omitempty"`
@@ -55,6 +56,9 @@ func (c SyncCase) String() string {
 	}
 	if c.ViaLinks {
 		s += " roots-reached-through-symlinks"
+	}
+	if c.MemShort > 0 {
+		s += fmt.Sprintf(" source-readers-deliver-at-most=%dB", c.MemShort)
 	}
 	if c.Notify || c.FilterShift || c.FilterUID {
 		s += fmt.Sprintf(" notify=%v filter-shift=%v filter-uid=%v", c.Notify, c.FilterShift, c.FilterUID)
@@ -137,6 +141,7 @@ func (d *syncDirs) transferFault(c SyncCase, srcTree fsmodel.Tree, fault xfer.Fa
 	if c.Mem {
 		m := memfs.New(srcTree)
 		m.EOFWithData = c.MemEOF
+		m.MaxRead = c.MemShort
 		if c.MemResize != 0 {
 			m.Resize = func(_ string, data []byte) []byte { return ResizeBytes(data, c.MemResize) }
 		}
